@@ -61,6 +61,7 @@ def main():
     root, repo = sys.argv[1], sys.argv[2]
     checks = ALL
     only = None
+    own = False
     out = os.path.join(root, "results.json")
     a = sys.argv[3:]
     while a:
@@ -70,6 +71,9 @@ def main():
         elif a[0] == "--only":
             only = set(a[1].split(","))
             a = a[2:]
+        elif a[0] == "--own":
+            own = True          # run only the check of the seed's own property
+            a = a[1:]
         elif a[0] == "--out":
             out = a[1]
             a = a[2:]
@@ -152,7 +156,7 @@ def main():
             rec["validated"] = (rec.get("suite_with_patch") == "pass" and rec.get("demo_with_patch") == "fail" and rec.get("demo_without_patch") == "pass")
             # run the checks with the patch applied
             rec["checks"] = {}
-            for c in checks:
+            for c in ([prop] if own else checks):
                 t = time.time()
                 p = subprocess.run([os.path.join(VERIF, "check"), c, "quick"], cwd=VERIF, env=env_check, stdout=subprocess.PIPE, stderr=subprocess.PIPE, text=True, timeout=3000)
                 viol = [l for l in p.stdout.split("\n") if l.startswith("VIOLATION")]
